@@ -58,20 +58,23 @@ def rollerCfg (base count pat : Nat) : RollerCfg :=
 roller wrapper fails once after the real roller returned `Ok`) -/
 def LATE : Nat := 1000000
 
+/-- the rollers as the code has them: the delete roller, and the fixed-window roller whose
+compressing final step has three sub-steps (`fixedWindowRollC`, fault index `count` = the
+`remove_file(src)` sub-step) -/
 def rollFnPlain : RollSpec → RollFn
   | .delete => fun p f d => deleteRoll p f d
-  | .fw b c pat => fun p f d => fixedWindowRoll (rollerCfg b c pat) p f d
+  | .fw b c pat => fun p f d => fixedWindowRollC compressLeavesCopyDefault (rollerCfg b c pat) p f d
 
-def rollFn (rs : RollSpec) : RollFn := fun p f d =>
-  if f LATE then
-    match rollFnPlain rs p (fun _ => false) d with
-    | (.ok _, d') => (.error (.injected LATE), d')
-    | e => e
-  else rollFnPlain rs p f d
+def rollFn (rs : RollSpec) : RollFn := lateRoll (rollFnPlain rs) LATE
 
-/-- the harness can inject a fault only where `rotate_point` is called -/
-def RollSpec.hasHook : RollSpec → Bool
-  | .fw _ c _ => c > 0
+/-- every roller can be made to fail: fixed window through `rotate_point`, the delete roller and
+`count = 0` through the harness's roller wrapper (fault index 0 = `remove_file` fails) -/
+def RollSpec.hasHook : RollSpec → Bool := fun _ => true
+
+/-- the fault hits the `remove_file(src)` sub-step of a compressing rotation -/
+def RollSpec.isCompressFault (rs : RollSpec) (k : Nat) : Bool :=
+  match rs with
+  | .fw _ c pat => c > 0 && (pat == 2 || pat == 3) && k == c
   | .delete => false
 
 def decAnswers (s : String) : Option (List TrigAns) :=
@@ -259,18 +262,31 @@ def Case.files (c : Case) (snap : Spec.Snap) : List Bytes :=
   let (b, n) := c.window
   Spec.diskFiles c.archName b n activePath snap.get?
 
-/-- walk the history: after every op the retained files must be a whole-file suffix of the stream -/
-def specC05Go (c : Case) : Nat → List Spec.Item → List OpSpec → List ObsEntry → Option String
-  | _, _, [], [] => none
-  | k, stream, op :: ops, e :: es =>
+/-- walk the history. After every op (1) the retained files consist of whole items of the stream,
+in stream order, each at most once, files ending at item boundaries (`suffixOfWhole`), and (2)
+relative to the snapshot before the op nothing has disappeared except whole oldest files, at most
+one per observed call of the roller (`stepOk` / `restartOk`) -/
+def specC05Go (c : Case) : Nat → List Spec.Item → List Bytes → List OpSpec → List ObsEntry → Option String
+  | _, _, _, [], [] => none
+  | k, stream, prev, op :: ops, e :: es =>
+    let cur := c.files e.snap
     let stream := match op.op, op.rec? with
-      | .append _ _, some r => stream ++ [{ bytes := recBytes r.chunks, must := e.res = "ok" }]
+      | .append _ _, some r => stream ++ [{ bytes := recBytes r.chunks, must := e.res = "ok" && op.fail.isNone }]
       | .restart, _ => if c.appendMode then stream else stream.map (fun it => { it with must := false })
       | _, _ => stream
+    let step : Bool := match op.op, op.rec? with
+      | .append _ _, some r =>
+        if op.fail.isSome then e.res != "ok" && Spec.stepOk e.calls prev cur [] false
+        else Spec.stepOk e.calls prev cur (recBytes r.chunks) (e.res = "ok")
+      | .restart, _ => Spec.restartOk c.appendMode prev cur
+      | _, _ => prev.flatten == cur.flatten
     if e.res = "PANIC" then some ("panic at op " ++ toString k)
-    else if Spec.suffixOfWhole stream (c.files e.snap) then specC05Go c (k + 1) stream ops es
-    else some ("after op " ++ toString k ++ " the retained files are not a whole-file suffix of the acknowledged stream")
-  | k, _, _, _ => some ("observation arity at op " ++ toString k)
+    else if !step then
+      some ("op " ++ toString k ++ " lost, duplicated or moved data: beyond whole oldest files (at most one per roller call, " ++
+        toString e.calls ++ " observed) the retained bytes must be the previous ones followed by the record")
+    else if Spec.suffixOfWhole stream cur then specC05Go c (k + 1) stream cur ops es
+    else some ("after op " ++ toString k ++ " the retained files are not whole records of the stream in order")
+  | k, _, _, _, _ => some ("observation arity at op " ++ toString k)
 
 def trigKind : TrigSpec → String
   | .size _ => "size" | .startup _ => "startup" | .time _ => "time"
@@ -305,7 +321,10 @@ def modelTags (c : Case) (ops : List OpSpec) (tr : List (Option Out × Disk)) : 
 def withSeq (cas obs : List String)
     (k : Case → List OpSpec → List (Option Out × Disk) → List ObsEntry → Answer) : Answer :=
   match cas, obs with
-  | ["seq", m, pre, arch, trig, roll, clock, opsS], [implObs] =>
+  | "seq" :: m :: pre :: arch :: trig :: roll :: clock :: opsS :: rest, [implObs] =>
+    -- a trailing `@bg` routes the case to the harness built with `background_rotation`; the
+    -- expected behaviour at quiescence is the same
+    if rest ≠ [] ∧ rest ≠ ["@bg"] then badCase "arity" else
     match decCase m pre arch trig roll clock with
     | none => badCase "case"
     | some c =>
@@ -415,21 +434,30 @@ def ConcCase.tags (cc : ConcCase) : List String :=
   ["conc", "threads-" ++ toString cc.threads.length, "amp-" ++ toString cc.amp,
    if cc.c.appendMode then "append" else "truncate", "trig-" ++ trigKind cc.c.trig, "roller-" ++ rollKind cc.c.roll]
 
+def dedupNat (xs : List Nat) : List Nat := xs.foldl (fun acc x => if acc.contains x then acc else acc ++ [x]) []
+
 def handleSeq (cas obs : List String) : Answer :=
   withSeq cas obs fun c ops tr es =>
     let model := encList "," (tr.map renderEntry)
+    let compressFault := ops.any (fun o => match o.op with | .append _ (some k) => c.roll.isCompressFault k | _ => false)
     -- entry 0 is the state after build; ops start at entry 1
     let spec := match es with
       | [] => "FAIL:empty observation;sig=" ++ c.sig "C05"
       | e0 :: rest =>
-        if !Spec.suffixOfWhole c.preItems (c.files e0.snap) then
-          "FAIL:after build the retained files are not the pre-existing contents;sig=" ++ c.sig "C05" ++ "-open"
-        else match specC05Go c 0 c.preItems ops rest with
+        let files0 := c.files e0.snap
+        if !(Spec.suffixOfWhole c.preItems files0 && files0.flatten == (c.preItems.map (·.bytes)).flatten) then
+          "FAIL:after build the retained files are not exactly the pre-existing contents;sig=" ++ c.sig "C05" ++ "-open"
+        else match specC05Go c 0 c.preItems files0 ops rest with
           | none => "ok"
           | some why =>
-            "FAIL:" ++ why ++ ";sig=" ++ c.sig "C05"
+            -- the known defect: the code does what the model says after a failed `remove_file(src)`
+            if compressFault ∧ obs = [model] then
+              "FAIL:" ++ why ++ " (compress wrote the archive, failed to remove the log file: segment in both);sig=C05/compress-failure-duplicates"
+            else "FAIL:" ++ why ++ ";sig=" ++ c.sig "C05"
     let tags := modelTags c ops tr ++ (if ops.any OpSpec.torn then ["encoder-error-after-slices"] else []) ++
       (if ops.any (fun o => o.fail.isSome) then ["encoder-error"] else []) ++
+      (if compressFault then ["compress-remove-fault"] else []) ++
+      (if cas.getLast? = some "@bg" then ["background-rotation"] else []) ++
       (if ops.any (fun o => match o.op with | .append _ (some k) => k == LATE | _ => false) then ["roller-late-err"] else [])
     { model, spec, tags := if ops.isEmpty then "trivial" :: tags else "seq" :: tags }
 
@@ -442,9 +470,211 @@ def handleConc (cas obs : List String) : Answer :=
         "FAIL:retained files are not whole acknowledged records in per-thread order (suffix by whole files);sig=" ++ cc.c.sig "C05" ++ "-conc",
       tags := cc.tags }
 
+/-! ### concurrent writers in phases (`par`), judged and replayed
+
+  par <mode> <preActive> <preArchives> <trigger> <roller> <clock0> <amp> <faults> <phases>
+  faults = `,`-joined ordinal:step (the ordinal-th `Roll::roll` call of the case fails at step), `~` none
+  phases = `/`-joined (a restart in between); threads `|`-joined; a thread = `,`-joined record | e<n>!record
+  observation: <events>!<calls>!<snapshot>;  events mirror the phases: id.start.ack | id.start.x  (global tickets) -/
+
+structure PEv where
+  id : Nat
+  start : Nat
+  ack : Option Nat
+  deriving Repr
+
+structure POp where
+  r : RecSpec
+  fail : Option Nat
+  phase : Nat
+  thread : Nat
+  idx : Nat
+  ev : PEv
+
+def decPEv (s : String) : Option PEv :=
+  match splitOnChar '.' s with
+  | [i, st, a] =>
+    match decNat i, decNat st with
+    | some id, some start => if a = "x" then some { id, start, ack := none } else (decNat a).map (fun k => { id, start, ack := some k })
+    | _, _ => none
+  | _ => none
+
+def decParRec (s : String) : Option (RecSpec × Option Nat) :=
+  match (decOp true s) with
+  | some o => match o.op, o.rec? with
+    | .append _ none, some r => some (r, o.fail)
+    | _, _ => none
+  | none => none
+
+def decFaults (s : String) : Option (List (Nat × Nat)) :=
+  mapM? (fun e => match splitOnChar ':' e with
+    | [a, b] => match decNat a, decNat b with
+      | some a, some b => some (a, b)
+      | _, _ => none
+    | _ => none) (decList ',' s)
+
+/-- candidates for explaining file contents: (key, bytes); keys ≥ `preKey` are pre-existing items -/
+def preKey : Nat := 1000000000
+
+/-- cut a file into whole candidates, greedily (records carry unique ids; pre-existing items are
+tried last: a tiny pre-existing file may be a prefix of a record) -/
+def cutFile (cands : List (Nat × Bytes)) : Nat → Bytes → Option (List Nat)
+  | 0, cur => if cur.isEmpty then some [] else none
+  | fuel + 1, cur =>
+    if cur.isEmpty then some [] else
+    match cands.find? (fun c => !c.2.isEmpty && c.2.isPrefixOf cur) with
+    | none => none
+    | some c => (cutFile cands fuel (cur.drop c.2.length)).map (c.1 :: ·)
+
+def posOf (xs : List Nat) (k : Nat) : Option Nat := xs.findIdx? (· == k)
+
+/-- replay a concurrent case sequentially in the order `phases` (records with their encoder
+failure), applying roller faults by the ordinal of the call; returns (total calls, final disk) -/
+def Case.replay (c : Case) (phases : List (List (RecSpec × Option Nat))) (faults : List (Nat × Nat)) : Nat × Disk :=
+  let go {σ : Type} (trig : Trigger σ) (t0 : σ) : Nat × Disk :=
+    let cfg : Cfg σ := { path := activePath, appendMode := c.appendMode, trig, roll := rollFn c.roll }
+    let s0 := init cfg c.disk0 t0 c.clock0
+    let runPhase := fun (acc : Nat × St σ) (ph : List (RecSpec × Option Nat)) =>
+      ph.foldl (fun (acc : Nat × St σ) (rf : RecSpec × Option Nat) =>
+        let fault := (faults.find? (fun e => e.1 == acc.1)).map (·.2)
+        let xop : XOp := match rf.2 with
+          | some n => .appendFail rf.1.chunks n fault
+          | none => .op (.append rf.1.chunks fault)
+        let (o, s') := applyX cfg acc.2 xop
+        (acc.1 + callsOf o, s')) acc
+    let fin := (phases.zip (List.range phases.length)).foldl (fun (acc : Nat × St σ) (ph : List (RecSpec × Option Nat) × Nat) =>
+      let acc := if ph.2 = 0 then acc else (acc.1, restart cfg acc.2)
+      runPhase acc ph.1) (0, s0)
+    (fin.1, fin.2.disk)
+  match c.trig with
+  | .size n => go (sizeTrigger n) ()
+  | .startup m => go (onStartupTrigger m) false
+  | .time tc => go (timeTrigger tc) 0
+  | .scripted pre ans => go (scriptedTrigger pre) ans
+
+def isPreTrig : TrigSpec → Bool
+  | .size _ => false
+  | .scripted p _ => p
+  | _ => true
+
+def handlePar (cas obs : List String) : Answer :=
+  match cas, obs with
+  | ["par", m, pre, arch, trig, roll, clock, ampS, faultsS, phasesS], [implObs] =>
+    let phasesRaw := (splitOnChar '/' phasesS).map (fun ph => (decList '|' ph).map (fun t => mapM? decParRec (decList ',' t)))
+    match decCase m pre arch trig roll clock, decNat ampS, decFaults faultsS,
+          mapM? (fun ph => mapM? id ph) phasesRaw, splitOnChar '!' implObs with
+    | some c, some _, some _, some _, ["PANIC", _, _] =>
+      { model := "no-panic", spec := "FAIL:panic in a concurrent run;sig=" ++ c.sig "C05" ++ "-conc-panic", tags := ["panic"] }
+    | some c, some amp, some faults, some phases, [evS, callsS, snapS] =>
+      let evRaw := (splitOnChar '/' evS).map (fun ph => (decList '|' ph).map (fun t => mapM? decPEv (decList ',' t)))
+      match mapM? (fun ph => mapM? id ph) evRaw, decNat callsS, decSnap snapS with
+      | some evs, some calls, some snap =>
+        -- all appended records with their events
+        let ops : List POp := (phases.zip (List.range phases.length)).flatMap fun (ph, pi) =>
+          (ph.zip (List.range ph.length)).flatMap fun (th, ti) =>
+            (th.zip (List.range th.length)).filterMap fun ((r, fail), k) =>
+              ((evs[pi]? >>= (·[ti]?)) >>= (·[k]?)).map (fun ev => { r, fail, phase := pi, thread := ti, idx := k, ev })
+        let nOps := (phases.map (fun ph => (ph.map List.length).sum)).sum
+        let shapeOk := ops.length == nOps && ops.all (fun o => o.ev.id == o.r.id) &&
+          ops.all (fun o => o.fail.isNone || o.ev.ack.isNone)
+        -- pre-existing items and record candidates
+        let preItems := c.preItems
+        let preC : List (Nat × Bytes) := (preItems.zip (List.range preItems.length)).map (fun (it, i) => (preKey + i, it.bytes))
+        let recC : List (Nat × Bytes) := (ops.filter (fun o => o.fail.isNone)).map (fun o => (o.r.id, recBytes o.r.chunks))
+        let cands := recC ++ preC
+        let files := c.files snap
+        let fuel := cands.length + 2
+        let cut := mapM? (cutFile cands fuel) files
+        let spec : Option String := match cut with
+          | none => some "a retained file is not a concatenation of whole records (or holds a record whose encoder failed)"
+          | some perFile =>
+            let present := perFile.flatten
+            let pos := fun (k : Nat) => posOf present k
+            let nodup := present.length == (dedupNat present).length
+            -- pre-existing items first, in their order
+            let prePresent := present.filter (· ≥ preKey)
+            let preOrder := prePresent == (prePresent.toArray.qsort (· < ·)).toList &&
+              (present.take prePresent.length) == prePresent
+            let lastPhase := phases.length - 1
+            -- a record that must not be lost: acknowledged, non-empty; in truncate mode only the last phase
+            let must := fun (o : POp) => o.ev.ack.isSome && !(recBytes o.r.chunks).isEmpty && (c.appendMode || o.phase == lastPhase)
+            let presentOps : List (POp × Nat) := ops.filterMap (fun o => (pos o.r.id).map (fun k => (o, k)))
+            let missing := ops.filter (fun o => must o && (pos o.r.id).isNone)
+            -- order: phases in order, per-thread program order, and real time (acknowledged before the
+            -- other started => earlier in the files)
+            let orderOk := presentOps.all fun (x, px) => presentOps.all fun (y, py) =>
+              let before := px < py
+              (!(x.phase < y.phase) || before) &&
+              (!(x.phase == y.phase && x.thread == y.thread && x.idx < y.idx) || before) &&
+              (match x.ev.ack with | some a => !(a < y.ev.start) || before | none => true)
+            -- loss: a missing record must not have started after a present one was acknowledged
+            let lossOrder := missing.all fun x => presentOps.all fun (y, _) =>
+              match y.ev.ack with | some a => !(a < x.ev.start) | none => true
+            -- how many whole files the retention window may have discarded
+            let (_, cnt) := c.window
+            let evictable := match c.roll with
+              | .delete => calls
+              | .fw _ _ _ => (calls + (preItems.length - (if c.appendMode && c.preActive.isSome then 1 else 0))) - cnt
+            let preMissing := (List.range preItems.length).filter (fun i => (pos (preKey + i)).isNone && !((preItems[i]?.map (·.bytes)).getD []).isEmpty)
+            if !shapeOk then some "events do not match the programs"
+            else if !nodup then some "a record is stored twice"
+            else if !preOrder then some "pre-existing content is not ahead of the new records"
+            else if !orderOk then some "records are not in write order (phase, per-thread or real-time order violated)"
+            else if !lossOrder then some "an acknowledged record is missing although a record written before it is retained (loss from the middle)"
+            else if evictable == 0 ∧ (!missing.isEmpty ∨ !preMissing.isEmpty) ∧ (c.appendMode ∨ phases.length == 1) then
+              some (toString (missing.length + preMissing.length) ++ " acknowledged item(s) missing although the retention window cannot have discarded anything (" ++ toString calls ++ " roller calls)")
+            else none
+        -- replay: when every written record is visible in the files, their order there IS the write
+        -- order; the model, run sequentially in that order, must produce the same directory and the
+        -- same number of roller calls
+        let exact : Option (List (List (RecSpec × Option Nat))) := match cut with
+          | none => none
+          | some perFile =>
+            let present := perFile.flatten
+            -- an op whose place in the order cannot be seen in the files must be one whose place
+            -- does not matter: a failed encode under a post-process trigger consults nothing (an
+            -- empty record does consult the policy, so its place matters: such cases are not replayed)
+            let allVisible := ops.all (fun o =>
+              (posOf present o.r.id).isSome || (o.fail.isSome && !isPreTrig c.trig))
+            let preVisible := (List.range c.preItems.length).all (fun i => (posOf present (preKey + i)).isSome || ((c.preItems[i]?.map (·.bytes)).getD []).isEmpty)
+            if allVisible && preVisible && spec.isNone then
+              some ((List.range phases.length).map fun pi =>
+                let here := ops.filter (fun o => o.phase == pi)
+                let vis := (present.filterMap (fun k => here.find? (fun o => o.r.id == k && o.fail.isNone))).map (fun o => (o.r, (none : Option Nat)))
+                let failing := (here.filter (fun o => o.fail.isSome)).map (fun o => (o.r, o.fail))
+                vis ++ failing)
+            else none
+        let model := match exact with
+          | some order =>
+            let (mc, md) := c.replay order faults
+            -- the place of an op that leaves no bytes (failed encode, empty record) is not visible in the
+            -- files, but such an op re-creates the log file when it follows a rotation: whether an EMPTY
+            -- log file exists at the end is taken from the observation in such cases
+            let blind := ops.any (fun o => o.fail.isSome)
+            let mfiles := if blind then
+                let others := md.files.filter (fun e => !(e.1 == activePath && e.2.isEmpty))
+                if snap.get? activePath == some [] then others ++ [(activePath, [])] else others
+              else md.files
+            evS ++ "!" ++ toString mc ++ "!" ++ renderSnap mfiles
+          | none => evS ++ "!" ++ callsS ++ "!" ++ snapS
+        let tags := ["par", "phases-" ++ toString phases.length, "amp-" ++ toString amp,
+          if c.appendMode then "append" else "truncate", "trig-" ++ trigKind c.trig, "roller-" ++ rollKind c.roll,
+          if exact.isSome then "replayed" else "not-replayed"] ++
+          (if !faults.isEmpty then ["roller-faults"] else []) ++
+          (if ops.any (fun o => o.fail.isSome) then ["encoder-error"] else []) ++
+          (if calls > 0 then ["rolled"] else [])
+        { model, spec := match spec with
+            | none => "ok"
+            | some why => "FAIL:" ++ why ++ ";sig=" ++ c.sig "C05" ++ "-conc",
+          tags }
+      | _, _, _ => badCase "par observation"
+    | _, _, _, _, _ => badCase "par case"
+  | _, _ => badCase "arity"
+
 def handle : Handler := fun cas obs =>
   match cas with
   | "seq" :: _ => handleSeq cas obs
+  | "par" :: _ => handlePar cas obs
   | "conc" :: _ => handleConc cas obs
   | _ => badCase "kind"
 
